@@ -10,8 +10,9 @@ Section FeedProofs.
 Variable HS : Type.
 Variable handle : HS -> msg -> HS * verdict.
 Variable rl : role.
+Variable pol : policy.
 
-Notation feed := (feed HS handle rl).
+Notation feed := (feed HS handle rl pol).
 Notation pres := (pres HS).
 
 Definition mu (m : rmode) (l : list N) : nat :=
@@ -25,8 +26,8 @@ Proof.
   induction f1 as [|f1 IH]; intros f2 h m l H1 H2; [lia|].
   destruct f2 as [|f2]; [lia|].
   cbn [Model.feed]. destruct m as [|k lft|]; [| |reflexivity].
-  - destruct (one_msg rl l) eqn:E; try reflexivity.
-    destruct (one_msg_got_len _ _ _ _ E) as [[L1 L2] _].
+  - destruct (one_msg pol rl l) eqn:E; try reflexivity.
+    destruct (one_msg_got_len _ _ _ _ _ E) as [[L1 L2] _].
     destruct (handle h m) as [h' v]. destruct v; try reflexivity.
     assert (LS : length (skipn n l) + 4 <= length l) by (rewrite skipn_length; lia).
     unfold mu in *.
@@ -66,7 +67,7 @@ Qed.
 
 Lemma feedx_idle h l :
   feedx h RIdle l =
-  match one_msg rl l with
+  match one_msg pol rl l with
   | NeedMore => PRes h RIdle l []
   | HFault => PFault
   | Bad r => PRes h RClosed [] [EClose r]
@@ -85,8 +86,8 @@ Lemma feedx_idle h l :
   end.
 Proof.
   unfold feedx at 1. cbn [Model.feed].
-  destruct (one_msg rl l) eqn:E; try reflexivity.
-  destruct (one_msg_got_len _ _ _ _ E) as [[L1 L2] _].
+  destruct (one_msg pol rl l) eqn:E; try reflexivity.
+  destruct (one_msg_got_len _ _ _ _ _ E) as [[L1 L2] _].
   destruct (handle h m) as [h' v]. destruct v; try reflexivity.
   assert (LS : length (skipn n l) + 4 <= length l) by (rewrite skipn_length; lia).
   destruct (after m) as [[k len]|]; f_equal; apply feedx_fuel; unfold mu; lia.
@@ -124,13 +125,13 @@ Proof.
   destruct m as [|k lft|].
   - (* RIdle *)
     rewrite (feedx_idle h a).
-    destruct (one_msg rl a) eqn:E.
+    destruct (one_msg pol rl a) eqn:E.
     + cbn. rewrite papp_nil. reflexivity.
     + exfalso. eapply one_msg_no_fault; eauto.
     + rewrite feedx_idle, one_msg_mono by congruence. rewrite E. cbn. reflexivity.
     + rewrite feedx_idle, one_msg_mono by congruence. rewrite E. cbn. reflexivity.
     + rewrite feedx_idle, one_msg_mono by congruence. rewrite E.
-      destruct (one_msg_got_len _ _ _ _ E) as [[L1 L2] _].
+      destruct (one_msg_got_len _ _ _ _ _ E) as [[L1 L2] _].
       destruct (handle h m) as [h' v]. destruct v; [|cbn; reflexivity|cbn; reflexivity].
       rewrite skipn_app_le by lia.
       assert (LS : length (skipn n0 a) + 4 <= length a) by (rewrite skipn_length; lia).
@@ -181,9 +182,9 @@ Lemma feedx_total : forall n h m l, mu m l < n -> exists h' m' b' es, feedx h m 
 Proof.
   induction n as [|n IH]; intros h m l Hn; [lia|].
   destruct m as [|k lft|].
-  - rewrite feedx_idle. destruct (one_msg rl l) eqn:E; try (do 4 eexists; reflexivity).
+  - rewrite feedx_idle. destruct (one_msg pol rl l) eqn:E; try (do 4 eexists; reflexivity).
     + exfalso. eapply one_msg_no_fault; eauto.
-    + destruct (one_msg_got_len _ _ _ _ E) as [[L1 L2] _].
+    + destruct (one_msg_got_len _ _ _ _ _ E) as [[L1 L2] _].
       destruct (handle h m) as [h' v]. destruct v; try (do 4 eexists; reflexivity).
       assert (LS : length (skipn n0 l) + 4 <= length l) by (rewrite skipn_length; lia).
       unfold mu in Hn.
@@ -202,15 +203,15 @@ Proof. apply (feedx_total (S (mu m l))). lia. Qed.
 
 (* shape of results: a buffer rest only in mode RIdle, and it is an incomplete message *)
 Lemma feedx_shape : forall n h m l h' m' b' es, mu m l < n -> feedx h m l = PRes h' m' b' es ->
-  match m' with RIdle => one_msg rl b' = NeedMore | _ => b' = [] end.
+  match m' with RIdle => one_msg pol rl b' = NeedMore | _ => b' = [] end.
 Proof.
   induction n as [|n IH]; intros h m l h' m' b' es Hn; [lia|].
   destruct m as [|k lft|].
-  - rewrite feedx_idle. destruct (one_msg rl l) eqn:E; try discriminate.
+  - rewrite feedx_idle. destruct (one_msg pol rl l) eqn:E; try discriminate.
     + intros Q; inversion Q; subst. exact E.
     + intros Q; inversion Q; subst. reflexivity.
     + intros Q; inversion Q; subst. reflexivity.
-    + destruct (one_msg_got_len _ _ _ _ E) as [[L1 L2] _].
+    + destruct (one_msg_got_len _ _ _ _ _ E) as [[L1 L2] _].
       destruct (handle h m) as [h1 v]. destruct v; try (intros Q; inversion Q; subst; reflexivity).
       assert (LS : length (skipn n0 l) + 4 <= length l) by (rewrite skipn_length; lia).
       unfold mu in Hn.
@@ -255,9 +256,9 @@ Qed.
 (* ---- no Fatal from the framing layer ----------------------------------------------------- *)
 Definition handler_never_fatal : Prop := forall h m, snd (handle h m) <> VFatal.
 
-Lemma one_body_no_fatal r len id l : one_body r len id l <> HFatal.
+Lemma one_body_no_fatal r len id l : one_body pol r len id l <> HFatal.
 Proof.
-  unfold one_body.
+  unfold one_body. destruct (p_hdr pol len id); [congruence|].
   repeat match goal with
   | |- context [if (?a =? ?b)%N then _ else _] => destruct (a =? b)%N
   end;
@@ -276,7 +277,7 @@ Proof.
   eapply N.le_lt_trans; [exact E|]. reflexivity.
 Qed.
 
-Lemma one_msg_no_fatal r l : one_msg r l <> HFatal.
+Lemma one_msg_no_fatal r l : one_msg pol r l <> HFatal.
 Proof.
   unfold one_msg.
   destruct (length l <? 4)%nat; [congruence|].
@@ -293,11 +294,11 @@ Lemma feedx_no_fatal : handler_never_fatal ->
 Proof.
   intros NF. induction n as [|n IH]; intros h m l h' m' b' es Hn; [lia|].
   destruct m as [|k lft|].
-  - rewrite feedx_idle. destruct (one_msg rl l) eqn:E; try discriminate.
+  - rewrite feedx_idle. destruct (one_msg pol rl l) eqn:E; try discriminate.
     + intros Q; inversion Q; subst. cbn. tauto.
     + intros Q; inversion Q; subst. cbn. intros [X|[]]. discriminate.
     + exfalso. eapply one_msg_no_fatal; eauto.
-    + destruct (one_msg_got_len _ _ _ _ E) as [[L1 L2] _].
+    + destruct (one_msg_got_len _ _ _ _ _ E) as [[L1 L2] _].
       pose proof (NF h m) as NFm.
       destruct (handle h m) as [h1 v]. cbn in NFm. destruct v; [| |congruence].
       * assert (LS : length (skipn n0 l) + 4 <= length l) by (rewrite skipn_length; lia).
